@@ -36,11 +36,14 @@ def rule_move(ctx):
     ctx.ob("MOVE", "into_builder consumes self", facts.fns[ks[0]]["inputs"][0].startswith("GenericPurl<"), fn=ks[0], detail=str(facts.fns[ks[0]]["inputs"]))
 
 
-def rule_idemp(ctx, shapes=None):
+def rule_idemp(ctx, shapes=None, finish_only=False):
     facts = ctx.facts()
     bm = models.builder_model(facts)
     bk = bm["key"]
     st = bm["stages"]
+    if finish_only:
+        # only what a re-build does to namespace and name of a typed PURL: the type's finish rules and the stages' frame
+        return _idemp_finish(ctx, facts, bm, bk, with_checksum_lower=False)
     # --- type lower-casing (string shapes)
     AZ = sum(1 << c for c in range(65, 91))
     lowered = (VALID_TYPE_SET & ~AZ) | sum(1 << (c + 32) for c in range(65, 91) if (VALID_TYPE_SET >> c) & 1)
@@ -61,6 +64,10 @@ def rule_idemp(ctx, shapes=None):
     # --- S4 checksum: fixpoint of parse . serialise on the canonical text
     C12.serializer_obligations(ctx, facts, rule="IDEMP-CHECKSUM", scope="parsed")
     C12.rule_agree_parser(ctx)  # separator agreement parser <-> serialiser (rule name AGREE-K)
+    _idemp_finish(ctx, facts, bm, bk, with_checksum_lower=True)
+
+
+def _idemp_finish(ctx, facts, bm, bk, with_checksum_lower):
     ok_low = True
     n = 0
     for c in range(0x110000):
@@ -72,8 +79,9 @@ def rule_idemp(ctx, shapes=None):
             if lo.lower() != lo:
                 ok_low = False
     ctx.ob("IDEMP", "lower(lower(c)) = lower(c) for every Unicode scalar value", ok_low, detail="%d chars with a non-trivial lower-case mapping" % n)
-    rl = C12.roles(facts)
-    lowercase.guardxform_obligations(ctx, facts, rl["lower"], rule="IDEMP-LOWER")
+    if with_checksum_lower:
+        rl = C12.roles(facts)
+        lowercase.guardxform_obligations(ctx, facts, rl["lower"], rule="IDEMP-LOWER")
     ctx.note("checksum: to_ascii_lowercase on hex digits is idempotent; S4 always produces a non-empty value (>= 1 entry, each containing ':' -- see AGREE-K / HEX-GUARD obligations), so it cannot re-enable S3")
     # --- finish rules
     fk = C08.finish_key(facts)
